@@ -76,6 +76,34 @@ CHECKS = {
         note="audit events are assumed to reveal host-side execution and side effects; 6 s hard / 2 s soft limit, 3 GiB address space",
         technique="exhaustive enumeration of position x expression products and all short noise strings under an audit-hook sandbox",
     ),
+    "C15": dict(
+        category="model_checking",
+        text="Button: 16 script shapes (declared before the loop / at its top, with/without on_click, 0-2 is_pressed() per pass, one or two buttons) each run on ALL level sequences of length 7 (quick) / 9 (thorough); monitors over the firmware trace: one sample per pass before user code, clicks == rising edges of the sampled signal (never at start-up / held / on release), is_pressed == pass sample, host Button agreement. Potentiometer: read() in 10 expression positions x all 3-value sequences, differential with the host class. Ultrasonic: all call histories of depth 2 (quick) / 3 over 10 echo patterns x 6 clock advances from a stopped and a running clock; attempts, fallback chain, distance formula and 60 ms trigger spacing.",
+        design_ref="DESIGN.md §2 C15",
+        note="mock core owns digitalRead/analogRead/pulseIn/millis; pulseIn timeout consumes 30 ms of virtual time; ms timestamp resolution",
+        technique="exhaustive enumeration of input signal sequences / call histories per compiled firmware + trace monitors",
+    ),
+    "C16": dict(
+        category="model_checking",
+        text="All buzzer call sequences (all singles in setup and loop, literal and run-time arguments; core x all pairs; thorough: all pairs + core triples) over play_tone/stop/beep/sweep/melody with zero, negative, fractional frequencies, zero durations, counts/steps <= 0, tempos <= 0 and all seven melodies; a protocol automaton derived from the property text checks every call's tone/noTone/delay events on the buzzer pin and the three getters.",
+        design_ref="DESIGN.md §2 C16",
+        note="the melody score table in checks/c16.py is a golden copy; no host model exists for the buzzer",
+        technique="exhaustive enumeration of call sequences + protocol-automaton monitor over the executed firmware trace",
+    ),
+    "C17": dict(
+        category="model_checking",
+        text="Helper layer: one firmware per (wiring, cols, rows) executes every (col, row in {0,last}, text length 0..cols+2, align, clear flag, blank/filled background) variant of write/line/message at run time; the mock HD44780 cell matrix is compared with the host LCD buffer after every call and any DDRAM write outside the addressed row or beyond the width is flagged. Program layer: all op sequences k<=2 (+power-op triples) over text, progress, glyph, display/backlight/brightness on 16x2 parallel and 20x4 I2C. Progress layer: every (value, max, width, label) against the monotone / saturation / exact-multiple / one-cell rules.",
+        design_ref="DESIGN.md §2 C17",
+        note="quick: cols in {1,2,8,16,20,40} x rows {1,2,4}; thorough: cols 1..40 x rows 1..4; ASCII text; geometries above 80 cells use an abstract per-row layout in the mock",
+        technique="exhaustive enumeration of geometry/argument grids executed inside compiled firmware + differential cell-matrix comparison with the host model",
+    ),
+    "C18": dict(
+        category="model_checking",
+        text="Host: explicit-state BFS to fixpoint on real LCD objects for every style x text length x width x loop x speed with tick times advancing by {0, speed-1, speed, speed+1, 3*speed}: never raises, row confinement, rate limit, bounded termination, looping liveness. Device: the clock advance before every loop() pass is an explorer-owned choice; all schedules with <=1 (quick) / <=2 (thorough) deviations from on-time over 2*len+3*cols+12 passes (clock from 0 and from 777 ms) and all schedules on tiny geometries; monitors: no delay ever, one tick per live animation per pass (also when the main loop continues), frames confined to the row, rate limit, bounded termination, liveness.",
+        design_ref="DESIGN.md §2 C18",
+        note="animations started before the main loop; a device 'step' is a pass in which the display is written; frame contents are not compared between host and device (the property does not ask for it)",
+        technique="explicit-state BFS (host) + deviation-bounded schedule enumeration over the virtual clock (device)",
+    ),
 }
 
 NOT_YET = {}
